@@ -203,7 +203,8 @@ _EXTRA = {
            'transaction or an open cursor (B7).',
     'C12': ' Also: the delegation table and the sentinel-based equality hold (I1, L3); alternate constructors set the '
            'instance fields __init__ sets, nothing is stored on the class (I2); an update() that takes keyword items '
-           'names no other keyword-capturable parameter (I1); no iterator stays suspended inside a transaction or an '
+           'names no other keyword-capturable parameter, setdefault cannot raise KeyError and a stored None is never '
+           'taken for a missing key (I1); no iterator stays suspended inside a transaction or an '
            'open cursor (B7).',
     'C16': ' Also: decorator factories keep no state between decorated functions (M4); the lookup result shape survives '
            'the vanished-file path that memoize_stampede unpacks (B2); the wrapper\'s __cache_key__ is assigned after '
